@@ -36,7 +36,11 @@ def run(ctx):
         'the mixed mean is the mass-flow weighted mean (weights = area share x '
         'flow split)',
         'R8 low-fidelity regions: single node dT = Q dz / (m cp); six-node '
-        'exchange terms sum to zero']
+        'exchange terms sum to zero',
+        'R9 typestate of the coolant Material shared by bundle interior and '
+        'bypass: it is back at the interior temperature at the end of '
+        'calculate() / activate() on every path and wherever a method that '
+        'reads self.coolant.<property> directly is called']
     ctx.not_decided += ['the numeric residual (round-off / first order in '
                         'dz)', 'symmetry of the run-time adjacency arrays '
                         '(C08)', 'that the flow-split factors make the '
@@ -47,6 +51,8 @@ def run(ctx):
     r6(ctx)
     r7(ctx)
     r8(ctx)
+    from . import _coolstate
+    _coolstate.check(ctx, 'C01.R9')
     ctx.min_instances('C01.R1', 4)
     ctx.min_instances('C01.R2', 2)
     ctx.min_instances('C01.R3', 12)
